@@ -36,7 +36,7 @@ SHARD_TIMEOUT = {"quick": 300, "thorough": 1500}
 
 
 def all_cases(tier: str, seed: int):  # noqa: ANN201
-    yield from treecheck.cases("c01", tier, seed, 4000, 60000, extra=lambda: itertools.chain(treefam.empty_exit_spawn(), treefam.aexit_cancel_sweep()))
+    yield from treecheck.cases("c01", tier, seed, 4000, 60000, extra=lambda: itertools.chain(treefam.empty_exit_spawn(), treefam.aexit_cancel_sweep(), treefam.drain_spawn()))
 
 
 def shards(tier: str, seed: int) -> list[dict]:
